@@ -36,6 +36,8 @@ struct tctx { /* per simulated thread */
 		double gvt;
 	} *obs;
 	unsigned n_obs, cap_obs;
+	uint64_t serial_fw_seen;
+	bool serial_first_rec;
 };
 static struct tctx TC[VT_MAX];
 
@@ -642,15 +644,18 @@ void verif_wrap_fossil_lp_collect(struct lp_ctx *lp)
 	struct lpmon *L = &LM[me];
 	array_count_t before = array_count(lp->p.p_msgs);
 	struct ev_rec *snap = NULL;
-	bool *past = NULL;
+	bool *past = NULL, *cancelled = NULL;
 	if(before) {
 		snap = malloc(before * sizeof(*snap));
 		past = malloc(before * sizeof(*past));
+		cancelled = calloc(before, sizeof(*cancelled));
 		for(array_count_t i = 0; i < before; i++) {
 			struct lp_msg *m = array_get_at(lp->p.p_msgs, i);
 			past[i] = is_msg_past(m);
-			if(past[i])
+			if(past[i]) {
 				snap[i] = (struct ev_rec){m->dest_t, m->m_type, m->pl_size, payload_hash(m->pl, m->pl_size)};
+				cancelled[i] = (m->raw_flags & MSG_FLAG_ANTI) != 0;
+			}
 		}
 	}
 	releasing_history_of = lp;
@@ -668,6 +673,10 @@ void verif_wrap_fossil_lp_collect(struct lp_ctx *lp)
 		if(!(snap[i].ts < g))
 			sim_violation_soft("C13", "released-uncommitted", "LP %llu: fossil collection at GVT=%g released event t=%g",
 			    (unsigned long long)me, g, snap[i].ts);
+		if(cancelled[i])
+			sim_violation_soft("C06", "cancelled-committed",
+			    "LP %llu: an event (t=%g type=%u) whose sender has cancelled it is declared committed at GVT=%g: the cancellation got lost",
+			    (unsigned long long)me, snap[i].ts, snap[i].type, g);
 		commit_entry(me, &snap[i], g, "fossil collection");
 	}
 	if(removed) {
@@ -699,6 +708,7 @@ void verif_wrap_fossil_lp_collect(struct lp_ctx *lp)
 	}
 	free(snap);
 	free(past);
+	free(cancelled);
 }
 
 void verif_wrap_process_lp_init(struct lp_ctx *lp)
@@ -728,6 +738,10 @@ void verif_wrap_process_lp_fini(struct lp_ctx *lp)
 			continue;
 		if(!(m->dest_t < g))
 			break;
+		if(m->raw_flags & MSG_FLAG_ANTI)
+			sim_violation_soft("C06", "cancelled-committed",
+			    "LP %llu: an event (t=%g type=%u) whose sender has cancelled it is still a valid history entry below the last GVT=%g at shutdown",
+			    (unsigned long long)me, m->dest_t, m->m_type, g);
 		struct ev_rec e = {m->dest_t, m->m_type, m->pl_size, payload_hash(m->pl, m->pl_size)};
 		commit_entry(me, &e, g, "shutdown");
 	}
@@ -754,7 +768,17 @@ void verif_wrap_stats_take(enum stats_thread_type s, uint_fast64_t c)
 void verif_wrap_stats_on_gvt(simtime_t g)
 {
 	RKC->stats_on_gvt(g);
-	if(vt_self && tw_parallel()) {
+	if(vt_self && P.serial) {
+		/* the serial runtime records too: everything it dispatched since the last record is a forward execution */
+		struct tctx *c = tc();
+		c->forward = M.n_forward - c->serial_fw_seen;
+		c->serial_fw_seen = M.n_forward;
+		if(!c->serial_first_rec) {
+			c->forward += (uint64_t)P.n_lps; /* the serial runtime counts the LP_INIT executions as processed messages too */
+			c->serial_first_rec = true;
+		}
+	}
+	if(vt_self) {
 		struct tctx *c = tc();
 		if(c->n_obs == c->cap_obs) {
 			c->cap_obs = c->cap_obs ? c->cap_obs * 2 : 64;
@@ -1294,7 +1318,9 @@ static void stats_file_check(void)
 			if(g < last)
 				sim_violation("C20", "gvt-decreases", "node %lld: record %lld has GVT %g after %g", (long long)nd, (long long)k, g, last);
 			last = g;
-			if((uint64_t)k < M.rounds_known && k < GVT_ROUNDS_MAX && M.round_gvt[k] != g)
+			if(g < 0)
+				sim_violation("C20", "gvt-negative", "node %lld: record %lld has GVT %g", (long long)nd, (long long)k, g);
+			if(!P.serial && (uint64_t)k < M.rounds_known && k < GVT_ROUNDS_MAX && M.round_gvt[k] != g)
 				sim_violation("C20", "gvt-value", "node %lld: record %lld has GVT %g, the threads were told %g", (long long)nd, (long long)k, g,
 				    M.round_gvt[k]);
 		}
@@ -1311,6 +1337,10 @@ static void stats_file_check(void)
 			for(int v = 0; v < G.nvt; v++)
 				if(G.vt[v].kind == VTK_WORKER && G.vt[v].rank == nd && TC[v].lp_init_done && TC[v].rid == (int)t)
 					c = &TC[v];
+			if(P.serial)
+				for(int v = 0; v < G.nvt; v++)
+					if(G.vt[v].kind == VTK_MAIN)
+						c = &TC[v];
 			uint64_t cum_fw = 0, cum_undone = 0;
 			for(int64_t k = 0; k < t_rec; k++) {
 				uint64_t v[STATS_COUNT];
@@ -1351,7 +1381,7 @@ static void stats_file_check(void)
 /* ------------------------------------------------------------------ end-of-run oracles */
 static void final_checks(void)
 {
-	if(P.stats && !P.serial)
+	if(P.stats)
 		stats_file_check();
 	lp_id_t n = (lp_id_t)P.n_lps;
 	if(M.ranks_returned != P.n_ranks)
